@@ -1,7 +1,7 @@
 """C13 — array set functions implement multiset semantics over identical elements."""
 from collections import Counter
 from .. import gen
-from . import common
+from . import common, sizes
 
 SPEC_THEOREM = 'Props/C13: distinct keeps first occurrences and is idempotent; intersection/except partition the first list; overlap iff intersection non-empty; C13_set_functions_bytes_*: the offset-faithful walkers of SetWalk.v return buf ++ enc (tree result) on encodings'
 TRUSTED = ['Coq 8.16.1 kernel', 'translator', 'extraction + OCaml driver', 'Rust harness', 'model SetOps.v (identity = identical entry word and payload); SetWalk.v (offset-faithful array_*_jsonb, refinement proved on encodings, tied to the code by correspondence including corrupt buffers)']
@@ -40,6 +40,32 @@ def generate(ctx):
                 ids = [ctx.add('array_distinct %s' % eb).id, ctx.add('array_intersection %s %s' % (eb, ea)).id,
                        ctx.add('array_except %s %s' % (eb, ea)).id, ctx.add('array_overlap %s %s' % (eb, ea)).id]
                 ctx.trials.append((b, a, ids))
+    # arrays of 255 .. 1000 elements (with repeats) against short lists made of their first / middle / last elements and against
+    # themselves, and elements that are strings of 255 .. 65536 bytes differing only in the last byte (sizes.py; second review H2)
+    for lab, v in sizes.container_docs():
+        if v[0] != 'a':
+            continue
+        n = len(v[1])
+        fml = [x for _, x in sizes.first_mid_last(v)]
+        bs = [('a', fml), ('a', fml[::-1] + fml), ('a', [fml[-1]] * 3 + [('s', b'absent')]), ('a', []), fml[-1]] + ([v] if n <= 257 else [])
+        for b in bs:
+            ea, eb = gen.hexarg(gen.enc(v)), gen.hexarg(gen.enc(b))
+            ids = [ctx.add('array_distinct %s' % ea).id, ctx.add('array_intersection %s %s' % (ea, eb)).id,
+                   ctx.add('array_except %s %s' % (ea, eb)).id, ctx.add('array_overlap %s %s' % (ea, eb)).id]
+            ctx.trials.append((v, b, ids))
+            if b is not v:
+                ids = [ctx.add('array_distinct %s' % eb).id, ctx.add('array_intersection %s %s' % (eb, ea)).id,
+                       ctx.add('array_except %s %s' % (eb, ea)).id, ctx.add('array_overlap %s %s' % (eb, ea)).id]
+                ctx.trials.append((b, v, ids))
+    for n in sizes.STR_SIZES:
+        s = ('s', sizes.text(n))
+        s2, s3 = sizes.end_mutants(s)[:2]
+        a = ('a', [s, ('u', 1), s2, s, s3, s2])
+        for b in (('a', [s2, s2]), ('a', [s3, s]), ('a', [('s', s[1][:-1])]), s, a):
+            ea, eb = gen.hexarg(gen.enc(a)), gen.hexarg(gen.enc(b))
+            ids = [ctx.add('array_distinct %s' % ea).id, ctx.add('array_intersection %s %s' % (ea, eb)).id,
+                   ctx.add('array_except %s %s' % (ea, eb)).id, ctx.add('array_overlap %s %s' % (ea, eb)).id]
+            ctx.trials.append((a, b, ids))
     for _ in range(ctx.scale(1200, 50000)):
         c = r.random()
         base = pool + [ctx.g.value(depth=2, finite=False) for _ in range(3)]
